@@ -11,17 +11,25 @@ use crate::{
 // graph inputs
 
 /// Every labelled DAG on n nodes (kinds alternate), in the given edge order and,
-/// if `both_orders`, also with the edge list reversed.
+/// if `both_orders`, also with the edge list reversed and all kinds flipped.
 pub fn shape_specs(n: usize, both_orders: bool) -> Vec<Spec> {
     let ds = dags(n);
     let mut v = Vec::with_capacity(ds.len() * 2);
     for i in 0..ds.len() {
         let e = ds.edges(i);
-        v.push(Spec::plain(n, &e));
-        if both_orders && e.len() >= 2 {
-            let mut r = e.clone();
-            r.reverse();
-            v.push(Spec::plain(n, &r));
+        let first = Spec::plain(n, &e);
+        if both_orders && !e.is_empty() {
+            // second variant: edges inserted in reverse order, and every edge with the other
+            // kind (logic <-> contains) than in the first variant
+            let mut second = first.clone();
+            second.edges.reverse();
+            for ed in second.edges.iter_mut() {
+                ed.2 = !ed.2;
+            }
+            v.push(first);
+            v.push(second);
+        } else {
+            v.push(first);
         }
     }
     v
@@ -287,6 +295,12 @@ pub fn c01(tier: &str) -> (Vec<Space>, Focus) {
     };
     let specs: Vec<Spec> = (1..=3).flat_map(|n| decl_specs(n, 1)).collect();
     v.push(space("n<=3 T=1 with interrupt at every point / every failing subset", specs, None, stress.clone()));
+    // n=4: reduced configuration menu in the quick tier, the full one in the thorough tier
+    v.push(space("all DAGs x declarations, n=4 T=1; for_each_concurrent_with x order, try_for_each_concurrent_mut_with", decl_specs(4, 1), None, |s| {
+        let mut c = cfgs_plain(s.n, &[Api { kind: Kind::ForEach, mutable: false, with: true }], &[None], &REVS);
+        c.extend(cfgs_plain(s.n, &[Api { kind: Kind::TryForEach, mutable: true, with: true }], &[None], &FWD));
+        c
+    }));
     if tier == "thorough" {
         v.push(space("all DAGs x declarations, n=4 T=1; main configurations", decl_specs(4, 1), None, main_cfgs));
         v.push(space("n=3 T=2 with interrupt at every point / every failing subset", decl_specs(3, 2), None, stress));
